@@ -425,4 +425,12 @@ def step (s : State) (now : Nat) (f : Faults) : Op → State × Out
       | .fail => (s, .forwarded [5])
       | .drop => ({ s with u := { s.u with closed := true } }, .err)
 
+/-- A sign request carrying signature flags (rsa-sha2-256 / rsa-sha2-512): the shim passes the
+    flags through, so the request does to the state what the plain one does; the underlying agent
+    can honour the flags only with an RSA key (`rsaKey`) and answers failure otherwise. -/
+def stepSignFlags (rsaKey : Nat → Bool) (s : State) (now : Nat) (f : Faults) (b : Blob) : State × Out :=
+  match step s now f (.sign b) with
+  | (s', .signed (.ok k)) => (s', if rsaKey k then .signed (.ok k) else .signed .err)
+  | r => r
+
 end Ysshra.Shim
